@@ -253,98 +253,8 @@ def run(world, tier, info, only=None):
             esc = flow.escapes(f, e, seps + brks)
             ck.ob("R3", "render_frame/Line/always-one", bool(seps) and bool(brks) and not esc, site(s_rf), "a Line always emits its separator or a break")
 
-    # ------------------------------------------------------------------ emit_anchored / render_comments (R2 + R4)
-    def anchor_fn(name, item_kind):
-        p = M + name
-        s = w.fns[p]
-        g = Fn(w.mir(p))
-        mg = MustFacts(g)
-        an = {g.name(i): i for i in range(1, g.nargs + 1)}
-        if "state" not in an:
-            ck.missing("R4", name + " parameter state")
-            return
-        a_state = an["state"]
-        if item_kind == "arg":
-            a_item = an.get("a")
-            if a_item is None:
-                ck.missing("R4", name + " parameter a")
-                return
-
-            def is_item(r, pth, field):
-                return r == ("arg", a_item) and pth == (field,)
-            entries = [(0, None, None)]
-        else:
-            a_cs = an.get("cs")
-            lp = []
-            for head, t, some, none, item in flow.loops_over(g):
-                ad = []
-                r, pth = flow.access_path(g, t["args"][0], extra_transparent=re.compile(r"Iterator::(rev|skip|take|step_by|filter|skip_while|take_while|map|enumerate|peekable|chain|zip)$"), adapters=ad)
-                if r == ("arg", a_cs) and pth == ():
-                    lp.append((head, t, some, none, ad))
-            if len(lp) != 1:
-                ck.ob("R2", name + "/loop", None if lp else False, site(s), "expected exactly one loop over `cs`, found %d" % len(lp))
-                return
-            head, t, some, none, ad = lp[0]
-            ck.ob("R2", name + "/all-comments", not ad, site(s, t["l"]),
-                  "the loop visits every comment of the slice in order" if not ad else "the comment loop uses adapters %s" % ad)
-
-            def is_item(r, pth, field):
-                return r[0] == "call" and r[2] == head and pth == ("Some", "0", field)
-            entries = [(some, head, none)]
-        for entry, head, none in entries:
-            gates = flow.call_blocks(g, PUSH_STR, lambda fn, t: _is_state_out(fn, t["args"][0], a_state) and is_item(*flow.access_path(fn, t["args"][1]), "text"))
-            esc = flow.escapes(g, entry, gates, stops=[head] if head is not None else [])
-            ck.ob("R2", name + "/pushes-text", bool(gates) and not esc, site(s),
-                  "%s pushes the item's text onto state.out on every path%s" % (name, " of every iteration, and never leaves the loop early" if head is not None else "")
-                  if gates and not esc else "%s can finish %s without pushing the item's text (blocks %s)" % (name, "an iteration" if head is not None else "", esc))
-            # anchors
-            apush = []
-            for bi, t in g.calls(VEC_PUSH):
-                r, pth = flow.access_path(g, t["args"][0])
-                if r == ("arg", a_state) and pth == ("anchors",):
-                    apush.append((bi, t))
-            if not apush:
-                ck.ob("R4", name + "/records-anchor", False, site(s), "%s never pushes a RenderedAnchor" % name)
-                continue
-            for bi, t in apush:
-                a = t["args"][1]
-                d = g.def_of(a[1][0]) if a[0] != "k" else None
-                rv = g.rvalue_at(d) if d and d[0] == "s" else None
-                if not (rv and rv[0] == "agg" and isinstance(rv[1], dict) and (rv[1].get("adt") or "").endswith("RenderedAnchor")):
-                    ck.ob("R4", name + "/anchor-shape", None, site(s, t["l"]), "anchor value is not built in place; cannot decide")
-                    continue
-                fields = [x["name"] for x in w.adts[M + "RenderedAnchor"]["variants"][0]["fields"]]
-                ops = dict(zip(fields, rv[2]))
-                # dst_line = state.current_line
-                r, pth = flow.access_path(g, ops["dst_line"])
-                ck.ob("R4", name + "/dst_line", r == ("arg", a_state) and pth == ("current_line",), site(s, t["l"]),
-                      "dst_line = state.current_line (found %s)" % flow.fmt_path((r, pth), g))
-                # dst_column = (state.col as u32) + 1
-                okc, why = _col_plus_one(g, ops["dst_column"], a_state)
-                ck.ob("R4", name + "/dst_column", okc, site(s, t["l"]), "dst_column = state.col + 1" if okc else "dst_column is %s, expected state.col + 1" % why)
-                for fld, src in (("src_line", "src_line"), ("src_column", "src_column"), ("text", "text")):
-                    r, pth = flow.access_path(g, ops[fld])
-                    ck.ob("R4", name + "/" + fld, is_item(r, pth, src), site(s, t["l"]),
-                          "%s is the item's own %s (found %s)" % (fld, src, flow.fmt_path((r, pth), g)))
-                # order: flush before reading the position (emit_anchored); nothing moves the cursor between the read and the text push
-                read_bbs = _read_blocks(g, ops, a_state)
-                if item_kind == "arg":
-                    F = mg.at_entry(min(read_bbs)) if read_bbs else None
-                    okf = F is not None and ("called", M + "flush_pending_with_indent") in F
-                    ck.ob("R4", name + "/flush-before-anchor", okf, site(s, t["l"]),
-                          "the pending indent is flushed before the anchor position is read" if okf else
-                          "the anchor position is read before flush_pending_with_indent ran: the column misses the indent")
-                movers = _cursor_movers(g, read_bbs, gates, a_state, bi, head)
-                ck.ob("R4", name + "/nothing-between-anchor-and-text", not movers, site(s, t["l"]),
-                      "between reading (current_line, col) for the anchor and pushing the text nothing writes state.out/col/current_line" if not movers else
-                      "the cursor moves between the anchor's position read and the text push: %s" % movers[:3])
-                # the anchor is recorded before the text is written: the anchor push is not reachable from a text gate within the iteration
-                late = [gb for gb in gates if g.reaches(g.blocks[gb]["t"]["to"], bi, avoid=[head] if head is not None else [])]
-                ck.ob("R4", name + "/anchor-before-text", not late, site(s, t["l"]),
-                      "the anchor is recorded before its text is pushed" if not late else "the anchor is recorded after the text was pushed (position is past the text)")
-
-    anchor_fn("emit_anchored", "arg")
-    anchor_fn("render_comments", "loop")
+    anchor_obligations(ck, w, "emit_anchored", "arg")
+    anchor_obligations(ck, w, "render_comments", "loop")
 
     # ------------------------------------------------------------------ R5 strip
     s_ri = w.fns[M + "render_inner"]
@@ -398,6 +308,97 @@ def run(world, tier, info, only=None):
     ck.floor("R6", "writes to state.col", n_col, 10)
     ck.analysed = {"functions": [M + n for n in need], "doc_variants": variants, "col_writes": n_col}
     return ck.finish(info)
+
+
+# ------------------------------------------------------------------ emit_anchored / render_comments (R2 + R4)
+def anchor_obligations(ck, w, name, item_kind, R2="R2", R4="R4"):
+    p = M + name
+    s = w.fns[p]
+    g = Fn(w.mir(p))
+    mg = MustFacts(g)
+    an = {g.name(i): i for i in range(1, g.nargs + 1)}
+    if "state" not in an:
+        ck.missing(R4, name + " parameter state")
+        return
+    a_state = an["state"]
+    if item_kind == "arg":
+        a_item = an.get("a")
+        if a_item is None:
+            ck.missing(R4, name + " parameter a")
+            return
+
+        def is_item(r, pth, field):
+            return r == ("arg", a_item) and pth == (field,)
+        entries = [(0, None, None)]
+    else:
+        a_cs = an.get("cs")
+        lp = []
+        for head, t, some, none, item in flow.loops_over(g):
+            ad = []
+            r, pth = flow.access_path(g, t["args"][0], extra_transparent=re.compile(r"Iterator::(rev|skip|take|step_by|filter|skip_while|take_while|map|enumerate|peekable|chain|zip)$"), adapters=ad)
+            if r == ("arg", a_cs) and pth == ():
+                lp.append((head, t, some, none, ad))
+        if len(lp) != 1:
+            ck.ob(R2, name + "/loop", None if lp else False, site(s), "expected exactly one loop over `cs`, found %d" % len(lp))
+            return
+        head, t, some, none, ad = lp[0]
+        ck.ob(R2, name + "/all-comments", not ad, site(s, t["l"]),
+              "the loop visits every comment of the slice in order" if not ad else "the comment loop uses adapters %s" % ad)
+
+        def is_item(r, pth, field):
+            return r[0] == "call" and r[2] == head and pth == ("Some", "0", field)
+        entries = [(some, head, none)]
+    for entry, head, none in entries:
+        gates = flow.call_blocks(g, PUSH_STR, lambda fn, t: _is_state_out(fn, t["args"][0], a_state) and is_item(*flow.access_path(fn, t["args"][1]), "text"))
+        esc = flow.escapes(g, entry, gates, stops=[head] if head is not None else [])
+        ck.ob(R2, name + "/pushes-text", bool(gates) and not esc, site(s),
+              "%s pushes the item's text onto state.out on every path%s" % (name, " of every iteration, and never leaves the loop early" if head is not None else "")
+              if gates and not esc else "%s can finish %s without pushing the item's text (blocks %s)" % (name, "an iteration" if head is not None else "", esc))
+        # anchors
+        apush = []
+        for bi, t in g.calls(VEC_PUSH):
+            r, pth = flow.access_path(g, t["args"][0])
+            if r == ("arg", a_state) and pth == ("anchors",):
+                apush.append((bi, t))
+        if not apush:
+            ck.ob(R4, name + "/records-anchor", False, site(s), "%s never pushes a RenderedAnchor" % name)
+            continue
+        for bi, t in apush:
+            a = t["args"][1]
+            d = g.def_of(a[1][0]) if a[0] != "k" else None
+            rv = g.rvalue_at(d) if d and d[0] == "s" else None
+            if not (rv and rv[0] == "agg" and isinstance(rv[1], dict) and (rv[1].get("adt") or "").endswith("RenderedAnchor")):
+                ck.ob(R4, name + "/anchor-shape", None, site(s, t["l"]), "anchor value is not built in place; cannot decide")
+                continue
+            fields = [x["name"] for x in w.adts[M + "RenderedAnchor"]["variants"][0]["fields"]]
+            ops = dict(zip(fields, rv[2]))
+            # dst_line = state.current_line
+            r, pth = flow.access_path(g, ops["dst_line"])
+            ck.ob(R4, name + "/dst_line", r == ("arg", a_state) and pth == ("current_line",), site(s, t["l"]),
+                  "dst_line = state.current_line (found %s)" % flow.fmt_path((r, pth), g))
+            # dst_column = (state.col as u32) + 1
+            okc, why = _col_plus_one(g, ops["dst_column"], a_state)
+            ck.ob(R4, name + "/dst_column", okc, site(s, t["l"]), "dst_column = state.col + 1" if okc else "dst_column is %s, expected state.col + 1" % why)
+            for fld, src in (("src_line", "src_line"), ("src_column", "src_column"), ("text", "text")):
+                r, pth = flow.access_path(g, ops[fld])
+                ck.ob(R4, name + "/" + fld, is_item(r, pth, src), site(s, t["l"]),
+                      "%s is the item's own %s (found %s)" % (fld, src, flow.fmt_path((r, pth), g)))
+            # order: flush before reading the position (emit_anchored); nothing moves the cursor between the read and the text push
+            read_bbs = _read_blocks(g, ops, a_state)
+            if item_kind == "arg":
+                F = mg.at_entry(min(read_bbs)) if read_bbs else None
+                okf = F is not None and ("called", M + "flush_pending_with_indent") in F
+                ck.ob(R4, name + "/flush-before-anchor", okf, site(s, t["l"]),
+                      "the pending indent is flushed before the anchor position is read" if okf else
+                      "the anchor position is read before flush_pending_with_indent ran: the column misses the indent")
+            movers = _cursor_movers(g, read_bbs, gates, a_state, bi, head)
+            ck.ob(R4, name + "/nothing-between-anchor-and-text", not movers, site(s, t["l"]),
+                  "between reading (current_line, col) for the anchor and pushing the text nothing writes state.out/col/current_line" if not movers else
+                  "the cursor moves between the anchor's position read and the text push: %s" % movers[:3])
+            # the anchor is recorded before the text is written: the anchor push is not reachable from a text gate within the iteration
+            late = [gb for gb in gates if g.reaches(g.blocks[gb]["t"]["to"], bi, avoid=[head] if head is not None else [])]
+            ck.ob(R4, name + "/anchor-before-text", not late, site(s, t["l"]),
+                  "the anchor is recorded before its text is pushed" if not late else "the anchor is recorded after the text was pushed (position is past the text)")
 
 
 def _nth(fn, bi, si, field):
